@@ -17,7 +17,7 @@ def run(check: Check) -> None:
         "formula and the AST under ALL contains no operator F disables. (d) every single-token edit (replace / insert / delete) of 20 well-formed seeds."
     )
     check.info["rule"] = "case = (harness, shard); each path of an enumerating harness is one concrete input string"
-    check.bounds.update({"tokenizer_string_length": 3 if thorough else 2, "stream_length": "2 over 31 symbols + 3 over a 16-symbol cut (quick); 3 over 20 / 31 and 4 over 20 (thorough)",
+    check.bounds.update({"tokenizer_string_length": 3 if thorough else 2, "stream_length": "2 over 33 symbols + 3 over a 16-symbol cut (quick); 3 over 20 / 33 and 4 over 20 (thorough)",
                          "flag_streams": "3 tokens over 7 symbols x 8 flag subsets (quick) / 4 tokens over 10 (thorough)", "edits": "1 (quick) / 2 replacements (thorough)", "seeds": "10 (quick) / 20 (thorough)"})
     check.out_of_scope += ["strings outside the length / edit-distance bounds", "termination is 'terminates within the per-path timeout on every explored path'",
                            "full-charset claims beyond the tokenizer (ast.parse realises the string)"]
@@ -38,13 +38,13 @@ def run(check: Check) -> None:
     fns = {
         "tokenizer_total": [{"N": 3 if thorough else 2}],
         "err1": [None],
-        "err2": list(range(30)),
+        "err2": list(range(33)),
         "err3": [{"SHARD": k, "M": (20 if thorough else 16)} for k in range(20 if thorough else 16)],
         "flags3": [{"SHARD": f, "N": (10 if thorough else 1), "M": (10 if thorough else 7)} for f in range(8)],
         "edit1": list(range(20 if thorough else 10)),
     }
     if thorough:
-        fns["err3full"] = list(range(30))
+        fns["err3full"] = list(range(33))
         fns["err4"] = list(range(400))
     for f in fns:
         check.functions.add(f"harness.ch_c14:{f}")
